@@ -323,7 +323,16 @@ fn svc_event(run: i64, src: &str, inp: Value) -> Value {
     let mut pts = x.clone();
     pts.extend(q.iter().cloned());
     let n = x.len();
-    let ptsc = pts.clone();
+    // optional common offset 2^off on every coordinate of every row handed to the library (training
+    // rows, query rows, batch rows); the stored vectors are shifted back, so the event stays on the
+    // small integers (the RBF kernel, the only one generated with an offset, is translation invariant)
+    let shift = offset_of(&inp);
+    let sh = move |rows: &Vec<Vec<f64>>| -> Vec<Vec<f64>> {
+        rows.iter().map(|r| r.iter().map(|v| v + shift).collect()).collect()
+    };
+    let x = sh(&x);
+    let batch = batch.map(|b| Batch { rows: sh(&b.rows), block: b.block, sample: b.sample });
+    let ptsc = sh(&pts);
     let kdc = kd.clone();
     type Model = SVC<f64, DenseMatrix<f64>, AnyK>;
     type Params = SVCParameters<f64, DenseMatrix<f64>, AnyK>;
@@ -359,7 +368,8 @@ fn svc_event(run: i64, src: &str, inp: Value) -> Value {
                     };
                     p.into_iter().map(|v| code(v)).collect()
                 };
-                let (inst, w, b) = dump_model(&serde_json::to_value(&m).unwrap());
+                let (inst_raw, w, b) = dump_model(&serde_json::to_value(&m).unwrap());
+                let inst: Vec<Vec<f64>> = inst_raw.iter().map(|r| r.iter().map(|v| v - shift).collect()).collect();
                 let (f, pred);
                 let (mut fb, mut fc, mut pb) = (vec![], vec![], vec![]);
                 match &batch {
@@ -390,7 +400,7 @@ fn svc_event(run: i64, src: &str, inp: Value) -> Value {
                     }
                 }
                 let kq = if logged_kernel(&kdc) {
-                    inst.iter().map(|sv| ptsc.iter().map(|p| kernel.apply(p, sv)).collect()).collect()
+                    inst_raw.iter().map(|sv| ptsc.iter().map(|p| kernel.apply(p, sv)).collect()).collect()
                 } else {
                     vec![]
                 };
@@ -433,7 +443,16 @@ fn svr_event(run: i64, src: &str, inp: Value) -> Value {
     let mut pts = x.clone();
     pts.extend(q.iter().cloned());
     let n = x.len();
-    let ptsc = pts.clone();
+    // optional common offset 2^off on every coordinate of every row handed to the library (training
+    // rows, query rows, batch rows); the stored vectors are shifted back, so the event stays on the
+    // small integers (the RBF kernel, the only one generated with an offset, is translation invariant)
+    let shift = offset_of(&inp);
+    let sh = move |rows: &Vec<Vec<f64>>| -> Vec<Vec<f64>> {
+        rows.iter().map(|r| r.iter().map(|v| v + shift).collect()).collect()
+    };
+    let x = sh(&x);
+    let batch = batch.map(|b| Batch { rows: sh(&b.rows), block: b.block, sample: b.sample });
+    let ptsc = sh(&pts);
     let kdc = kd.clone();
     type Model = SVR<f64, DenseMatrix<f64>, AnyK>;
     type Params = SVRParameters<f64, DenseMatrix<f64>, AnyK>;
@@ -461,7 +480,8 @@ fn svr_event(run: i64, src: &str, inp: Value) -> Value {
                         m.predict(mm).unwrap()
                     }
                 };
-                let (inst, w, b) = dump_model(&serde_json::to_value(&m).unwrap());
+                let (inst_raw, w, b) = dump_model(&serde_json::to_value(&m).unwrap());
+                let inst: Vec<Vec<f64>> = inst_raw.iter().map(|r| r.iter().map(|v| v - shift).collect()).collect();
                 let (mut fb, mut fc) = (vec![], vec![]);
                 let f = match &batch {
                     None => predict(&pm),
@@ -478,7 +498,7 @@ fn svr_event(run: i64, src: &str, inp: Value) -> Value {
                     }
                 };
                 let kq = if logged_kernel(&kdc) {
-                    inst.iter().map(|sv| ptsc.iter().map(|p| kernel.apply(p, sv)).collect()).collect()
+                    inst_raw.iter().map(|sv| ptsc.iter().map(|p| kernel.apply(p, sv)).collect()).collect()
                 } else {
                     vec![]
                 };
@@ -553,10 +573,19 @@ fn run_jobs(jobs: Vec<Job>, out: &mut Out) {
 // ------------------------------------------------------------------------------------------
 // kernels
 // ------------------------------------------------------------------------------------------
+/// `off` = e > 0: every coordinate is shifted by 2^e; 0: no shift
+fn offset_of(inp: &Value) -> f64 {
+    let e = inp["off"].as_i64().unwrap_or(0);
+    if e > 0 { pow2(e) } else { 0.0 }
+}
+
 fn k_event(run: i64, inp: Value) -> Value {
     let kd = inp["kernel"].clone();
-    let x: Vec<f64> = ints_of(&inp["x"]).iter().map(|&v| v as f64).collect();
-    let z: Vec<f64> = ints_of(&inp["z"]).iter().map(|&v| v as f64).collect();
+    // common offset 2^off added to every coordinate (exact: small integers + 2^27 / 2^30 fit 53 bits);
+    // the specification judges on the small integers (the RBF kernel is translation invariant)
+    let shift = offset_of(&inp);
+    let x: Vec<f64> = ints_of(&inp["x"]).iter().map(|&v| v as f64 + shift).collect();
+    let z: Vec<f64> = ints_of(&inp["z"]).iter().map(|&v| v as f64 + shift).collect();
     let sc = inp["S"].as_u64().unwrap() as u32;
     let r = guard(|| {
         let k = kernel_of(&kd);
@@ -575,7 +604,8 @@ fn k_event(run: i64, inp: Value) -> Value {
 
 fn gram_event(run: i64, inp: Value) -> Value {
     let kd = inp["kernel"].clone();
-    let x = rows_of(&inp["X"]);
+    let shift = offset_of(&inp);
+    let x: Vec<Vec<f64>> = rows_of(&inp["X"]).iter().map(|r| r.iter().map(|v| v + shift).collect()).collect();
     let sc = inp["S"].as_u64().unwrap() as u32;
     let r = guard(|| {
         let k = kernel_of(&kd);
@@ -882,6 +912,9 @@ fn gen_svc(out: &mut Out) {
             inp = with_float_labels(inp, &pos, name, lo, hi);
         }
         inp["api"] = json!(it % 5 == 1);
+        if inp["kernel"]["name"] == "rbf" && it % 3 == 0 {
+            inp["off"] = json!([20, 27, 30][(it / 3) % 3]);
+        }
         jobs.push(Job { run, src: if unseeded { "unseeded" } else { "rand" }, svr: false, inp });
     }
     // size ladder, training side: a handful of larger training sets (sizes around 64 / 128 / 256)
@@ -1023,6 +1056,10 @@ fn gen_svr(out: &mut Out) {
         run += 1;
         let inp = json!({"X": x, "y16": y16, "Q": q, "Cn": c.0, "Cd": c.1, "C16": c.0 * 65536 / c.1,
                          "eps16": eps16, "tol16": tol16, "kernel": k, "api": it % 5 == 3});
+        let mut inp = inp;
+        if inp["kernel"]["name"] == "rbf" && it % 3 == 0 {
+            inp["off"] = json!([20, 27, 30][(it / 3) % 3]);
+        }
         jobs.push(Job { run, src: "rand", svr: true, inp });
     }
     // size ladder, training side: a handful of larger regression sets with noisy targets, small
@@ -1123,7 +1160,14 @@ fn gen_kernel(out: &mut Out) {
                     continue; // quick tier: every second pair
                 }
                 run += 1;
-                out.emit(k_event(run, json!({"kernel": k, "x": x, "z": z, "S": sc})));
+                out.emit(k_event(run, json!({"kernel": k, "x": x, "z": z, "S": sc, "off": 0})));
+                // RBF only (the other kernels are not translation invariant): the same pair with a
+                // large common offset
+                if k["name"] == "rbf" {
+                    run += 1;
+                    let off = if (x[0] + z[1]).rem_euclid(2) == 0 { 27 } else { 30 };
+                    out.emit(k_event(run, json!({"kernel": k, "x": x, "z": z, "S": sc, "off": off})));
+                }
             }
         }
     }
@@ -1149,7 +1193,8 @@ fn gen_kernel(out: &mut Out) {
                         *[-1i64, 0, 1].choose(&mut r).unwrap(), *[1i64, 2].choose(&mut r).unwrap()), 10),
         };
         run += 1;
-        out.emit(k_event(run, json!({"kernel": k, "x": x, "z": z, "S": sc})));
+        let off = if k["name"] == "rbf" { *[0i64, 20, 27, 30].choose(&mut r).unwrap() } else { 0 };
+        out.emit(k_event(run, json!({"kernel": k, "x": x, "z": z, "S": sc, "off": off})));
     }
     // (b) Gram matrices of small point sets
     let gcnt = if th { 1500 } else { 300 };
@@ -1168,7 +1213,8 @@ fn gen_kernel(out: &mut Out) {
                        *[-1i64, 0, 1].choose(&mut r).unwrap(), 1),
         };
         run += 1;
-        out.emit(gram_event(run, json!({"kernel": k, "X": x, "S": 12})));
+        let off = if k["name"] == "rbf" { *[0i64, 27, 30].choose(&mut r).unwrap() } else { 0 };
+        out.emit(gram_event(run, json!({"kernel": k, "X": x, "S": 12, "off": off})));
     }
     // (c) chains: the points P_k = (1,..,1,0,..,0) (k ones, k = 0..m) satisfy |P_i - P_j|^2 = |i - j|
     //     and <P_i, P_j> = min(i, j), so squared distances / inner products run through 0..m and
@@ -1187,7 +1233,8 @@ fn gen_kernel(out: &mut Out) {
                         *[1i64, 4].choose(&mut r).unwrap()), 9),
         };
         run += 1;
-        out.emit(gram_event(run, json!({"kernel": k, "X": x, "S": sc})));
+        let off = if k["name"] == "rbf" { *[0i64, 27, 30].choose(&mut r).unwrap() } else { 0 };
+        out.emit(gram_event(run, json!({"kernel": k, "X": x, "S": sc, "off": off})));
     }
 }
 
